@@ -248,7 +248,7 @@ def _replay_batch(items, timeout=600):
         with open(path, "w", encoding="utf-8") as f:
             json.dump(items, f)
         env = dict(os.environ)
-        env["PYTHONPATH"] = VERIF
+        env["PYTHONPATH"] = VERIF + (os.pathsep + os.environ["VERIF_REPO_SRC"] if os.environ.get("VERIF_REPO_SRC") else "")
         env["PYTHONHASHSEED"] = "0"
         if MUTANT:
             env["VERIF_MUTANT"] = MUTANT
